@@ -210,13 +210,23 @@ def check(fb, ctx):
         for f in l["pat"].get("fields", []):
             if f.get("name") == "execution_time":
                 et_ids |= {b_["id"] for b_ in find_all(f["pat"], lambda z: z.get("k") == "bind")}
+    # a refusing test may be computed into a variable first (`let rejected = match (world.blocks.is_empty(), ..) {..}; if let
+    # Some(m) = rejected { return Err(..) }`): the variables of a condition are followed through their `let` initialisers
+    inits = {l["pat"]["id"]: l["init"] for l in find_all(bh["body"], lambda z: z.get("k") == "let" and isinstance(z.get("pat"), dict) and z["pat"].get("k") == "bind" and z.get("init") is not None)}
     for i in find_all(bh["body"], lambda z: z.get("k") == "if"):
         if hirq.err_variant(i["then"]):
-            for f in find_all(i["cond"], lambda z: z.get("k") == "field"):
-                refusals.add(f["name"])
-            # `execution_time` is destructured from the input struct: a binding of the field pattern, whatever the variable is called
-            for p in find_all(i["cond"], lambda z: hirq.is_lid(z, et_ids)):
-                refusals.add("execution_time")
+            todo, seen = [i["cond"]], set()
+            while todo:
+                c = todo.pop()
+                for f in find_all(c, lambda z: z.get("k") == "field"):
+                    refusals.add(f["name"])
+                # `execution_time` is destructured from the input struct: a binding of the field pattern, whatever the variable is called
+                for p in find_all(c, lambda z: hirq.is_lid(z, et_ids)):
+                    refusals.add("execution_time")
+                for p in find_all(c, lambda z: z.get("k") == "path" and z.get("res", {}).get("dk") == "Local" and z["res"].get("id") in inits):
+                    if p["res"]["id"] not in seen:
+                        seen.add(p["res"]["id"])
+                        todo.append(inits[p["res"]["id"]])
     ctx.check({"blocks", "generated_facts", "iterations", "execution_time"} <= refusals, "BUILDER", "AuthorizerBuilder::from_snapshot refuses blocks / generated facts / iterations / execution time", "BUILDER|refusals", f"refusing tests found for {sorted(refusals)}", f"{bb['file']}:{bb['line']}")
     # ---- builder snapshot writer
     bs = fb.body_opt(AB + "::snapshot")
